@@ -62,6 +62,8 @@ def parse_strace(path, root):
                 ev.append("w:%d" % fds[fd])
             elif s.startswith("FIN "):
                 ev.append("f:" + s.split()[1])
+            elif s.startswith("START"):
+                ev = []
             continue
         mo = re.match(r"(fsync|fdatasync)\((\d+)\)\s+= 0", l)
         if mo and int(mo.group(2)) in fds:
